@@ -927,15 +927,8 @@ func (w *c01World) step(maxQ, maxP int) {
 			return
 		}
 		in := qids[r.Intn(len(qids))]
-		if qi := w.gqm.getQuotaInfoByNameNoLock(c01QName(in)); !w.strict && in != pd.quota && qi != nil && qi.CheckPodIsAssigned(pd.cur.obj) &&
-			!w.gqm.getPodIsAssignedNoLock(c01QName(pd.quota), pd.cur.obj) {
-			// loose histories only (a pod cached in two quotas): the TARGET already holds the pod as assigned while it is
-			// unassigned in `out`.  Go's MigratePod then clears the target's flag (updatePodIsAssignedNoLock(in, pod, false))
-			// without touching used; Model/C01.lean migratePod only ever sets the flag.  This is outside the stated
-			// hypothesis "MigratePod ... a target not holding it"; skipped and counted until the model mirrors it.
-			w.h.Tag("skip:migrate-target-holds-assigned-pod")
-			return
-		}
+		// loose histories can migrate into a target that already holds the pod as assigned while it is unassigned in `out`:
+		// Go clears the target's flag (updatePodIsAssignedNoLock(in, pod, false)); Model/C01.lean migratePod mirrors it.
 		w.opMigrate(pd, pd.cur, pd.quota, in)
 	}
 }
@@ -1213,24 +1206,24 @@ func TestVerifC01(t *testing.T) {
 // alphabet below (all shorter sequences are prefixes: an observation block, the oracle and the fresh-manager
 // comparison follow every single operation).  Nothing is random; VERIF_SEED only selects the variant (seed%2).
 const (
-	c01xAddPend = iota // OnPodAdd, no NodeName                      (pod, quota)
-	c01xAddNode        // OnPodAdd with NodeName (fail-over)         (pod, quota)
-	c01xResize         // OnPodUpdate same quota, request small<->big (pod)
-	c01xBind           // OnPodUpdate same quota, NodeName set        (pod)
-	c01xMove           // OnPodUpdate to the other leaf A<->B         (pod)
-	c01xDel            // OnPodDelete                                 (pod)
-	c01xReserve        // ReservePod of an unassigned pod             (pod)
-	c01xUnreserve      // UnreservePod of a reserved, unbound pod     (pod)
-	c01xMigrate        // MigratePod to the other leaf A<->B          (pod)
-	c01xAMax           // UpdateQuota(A): max small<->large
-	c01xAMin           // UpdateQuota(A): min >0 <-> 0
-	c01xReparentB      // UpdateQuota(B): parent P<->root
-	c01xLendFlip       // UpdateQuota(non-lending leaf): lend flag flipped (resetQuotaNoLock path)
-	c01xDelQ           // DeleteQuota of a leaf without live pods     (quota)
-	c01xMkQ            // UpdateQuota re-creating the deleted leaf    (quota)
-	c01xReset          // ResetQuota
-	c01xNpFlip         // OnPodUpdate same quota, non-preemptible label flipped (pod)
-	c01xComplete       // OnPodUpdate same quota, phase Succeeded             (pod)
+	c01xAddPend   = iota // OnPodAdd, no NodeName                      (pod, quota)
+	c01xAddNode          // OnPodAdd with NodeName (fail-over)         (pod, quota)
+	c01xResize           // OnPodUpdate same quota, request small<->big (pod)
+	c01xBind             // OnPodUpdate same quota, NodeName set        (pod)
+	c01xMove             // OnPodUpdate to the other leaf A<->B         (pod)
+	c01xDel              // OnPodDelete                                 (pod)
+	c01xReserve          // ReservePod of an unassigned pod             (pod)
+	c01xUnreserve        // UnreservePod of a reserved, unbound pod     (pod)
+	c01xMigrate          // MigratePod to the other leaf A<->B          (pod)
+	c01xAMax             // UpdateQuota(A): max small<->large
+	c01xAMin             // UpdateQuota(A): min >0 <-> 0
+	c01xReparentB        // UpdateQuota(B): parent P<->root
+	c01xLendFlip         // UpdateQuota(non-lending leaf): lend flag flipped (resetQuotaNoLock path)
+	c01xDelQ             // DeleteQuota of a leaf without live pods     (quota)
+	c01xMkQ              // UpdateQuota re-creating the deleted leaf    (quota)
+	c01xReset            // ResetQuota
+	c01xNpFlip           // OnPodUpdate same quota, non-preemptible label flipped (pod)
+	c01xComplete         // OnPodUpdate same quota, phase Succeeded             (pod)
 )
 
 var c01xKindName = []string{"add-pending", "add-node", "resize", "bind", "move", "pod-delete", "reserve", "unreserve", "migrate",
